@@ -8,7 +8,7 @@ Import ListNotations.
 Record case := { k_in : cfg_input; k_boot_ok : bool; k_boot : list rres; k_obs : list obs; k_preds : list bool }.
 
 Definition preds_of (i : cfg_input) : list bool :=
-  [emptied_list_saved i; edit_while_detached i].
+  [emptied_list_saved i; edit_while_detached i; odd_element_saved i].
 
 Definition check (k : case) : verdict :=
   if negb (c11_scope (k_in k)) then VSkip else
